@@ -6,6 +6,9 @@ from ..runner import Harness, Spec
 _FILES = {"zz_verif_c17_payload_test.go": "c17/payload_gen.go"}
 # the -race build of the stress harness is only part of the thorough tier (the runner has no per-tier harness list)
 _THOROUGH = "thorough" in sys.argv or os.environ.get("VERIF_TIER") == "thorough"
+_CONC = dict(module="processor/batchprocessor", pkg="processor/batchprocessor",
+             files={"zz_verif_c17_card_test.go": "c17/card_test.go", "zz_verif_c17_conc_test.go": "c17/conc_test.go"},
+             test="TestVerifC17Concurrent", driver="drv_c17")
 _CARD = dict(module="processor/batchprocessor", pkg="processor/batchprocessor",
              files={"zz_verif_c17_card_test.go": "c17/card_test.go"}, test="TestVerifC17Cardinality", driver="drv_c17")
 
@@ -25,8 +28,10 @@ SPEC = Spec(
         Harness(name="proc-metrics", module="processor/batchprocessor", pkg="processor/batchprocessor", go="go1.26",
                 files=dict(_FILES, **{"zz_verif_c17_proc_test.go": "c17/proc_test.go"}),
                 test="TestVerifC17ProcMetrics", driver="drv_c17", n={"quick": 600, "thorough": 40000}, timeout_s=1500),
+        Harness(name="producers-concurrent", n={"quick": 400, "thorough": 5000}, timeout_s=1500, **_CONC),
         Harness(name="cardinality-concurrent", n={"quick": 3000, "thorough": 30000}, timeout_s=1500, **_CARD),
-    ] + ([Harness(name="cardinality-concurrent-race", race=True, n={"quick": 500, "thorough": 5000}, timeout_s=1500, **_CARD)]
+    ] + ([Harness(name="cardinality-concurrent-race", race=True, n={"quick": 500, "thorough": 5000}, timeout_s=1500, **_CARD),
+                  Harness(name="producers-concurrent-race", race=True, n={"quick": 100, "thorough": 1500}, timeout_s=1500, **_CONC)]
          if _THOROUGH else []),
     rule="split: corpus first (design-time witnesses: 3 records in one scope, size 2; 4-point sum with metadata, size 3), then "
          "generated payload trees (0-4 resources x 0-4 scopes x 0-6 items, metrics 0-4 metrics x 0-6 points of all five types + "
@@ -38,7 +43,10 @@ SPEC = Spec(
          "groups or send_batch_max_size set. cardinality-concurrent: native goroutines (GOMAXPROCS >= 4), limit 1-3, 0..limit-1 groups "
          "created first, then 8-16 producers released at once through a barrier whose first requests carry more distinct unseen "
          "values than the limit allows; monitor only (accept/refuse/emit log judged by the Lean monitor and a direct oracle); the "
-         "same under -race in thorough; every trial is non-trivial. distinct = distinct op lines (sha1).",
+         "same under -race in thorough; every trial is non-trivial. producers-concurrent: 2-6 native producers x 1-6 requests each "
+         "(0-4 records), groups absent / empty / v1 / v2 / [v1,v2] with mixed-case header names (every 4th case single shard), "
+         "send_batch_size in {0,1,3,8}, max = size + 0..2 or 0, real timers 0/1/3 ms, then Shutdown; monitor only (exactly-once, "
+         "isolation, bound), also under -race in thorough. distinct = distinct op lines (sha1).",
     trusted_base=[
         "Lean 4.33.0 kernel; axioms per theorem listed under axioms_per_theorem (subset of propext, Classical.choice, Quot.sound)",
         "hand-written model of splitLogs/splitTraces/splitMetrics/splitMetric, batch*.add/split, shard.startLoop/processItem/"
